@@ -43,6 +43,7 @@ structure Chain where
   pending : Addr → Denom → Nat               -- undistributed rewards of (hub, validator)
   withdrawAddr : Addr
   noRedelegate : Addr → Bool
+  noUndelegate : Addr → Bool                 -- the staking module refuses undelegations from this validator (entry limit)
   unbondingTime : Nat
   oracleOk : Bool
   oraclePrice : Nat
@@ -201,6 +202,7 @@ def handle (s : Sys) (m : Msg) : Res (Sys × List Msg) :=
     if who ≠ hubA then throw "unsupported delegator"
     if amt = 0 then throw "zero undelegation"
     if s.chain.deleg v < amt then throw "insufficient delegation"
+    if s.chain.noUndelegate v then throw "too many unbonding entries"
     pure ({ s with chain := { s.chain with
               deleg := upd s.chain.deleg v (s.chain.deleg v - amt),
               delegSet := upd s.chain.delegSet v (decide (s.chain.deleg v - amt > 0)),
@@ -386,6 +388,7 @@ inductive EnvOp where
   | accrue (v : Addr) (d : Denom) (amt : Nat)
   | donate (a : Addr) (d : Denom) (amt : Nat)
   | blockRedelegation (v : Addr) (on : Bool)
+  | blockUndelegation (v : Addr) (on : Bool)
   | oracle (ok : Bool) (price : Nat)
   | swap (ok : Bool) (p2 : Nat)
   | seedLegacy (u : Addr) (batch amt : Nat)
@@ -413,6 +416,8 @@ def Sys.env (s : Sys) (op : EnvOp) : Sys :=
   | .donate a d amt => s.setBank a d (s.chain.bank a d + amt)
   | .blockRedelegation v on =>
     { s with chain := { s.chain with noRedelegate := upd s.chain.noRedelegate v on } }
+  | .blockUndelegation v on =>
+    { s with chain := { s.chain with noUndelegate := upd s.chain.noUndelegate v on } }
   | .oracle ok p => { s with chain := { s.chain with oracleOk := ok, oraclePrice := p } }
   | .swap ok p => { s with chain := { s.chain with swapOk := ok, swapP2 := p } }
   | .seedLegacy u b amt => { s with hub := { s.hub with legacy := HubSt.insLegacy (u, b, amt) s.hub.legacy } }
